@@ -303,7 +303,18 @@ func (fr *Frame) asn1Marshal(b *ssa.BasicBlock, st *State, args []Val, resT type
 	fc.addFact("true", fmt.Sprintf("(forall ((i Int)) (! (=> (and (<= 0 i) (< i %s)) (= (select %s i) %s)) :pattern ((select %s i))))", n, codes, code, codes))
 	// marshal succeeds iff every element is a bool or a non-nil *big.Int
 	okc := fc.freshConst("asn1ok", "Bool")
-	fc.addFact("true", sEq(okc, fmt.Sprintf("(forall ((i Int)) (=> (and (<= 0 i) (< i %s)) (or (= (itype %s) %s) (and (= (itype %s) %s) (not (= (ipay %s) 0))))))", n, el, boolTag, el, bigTag, el)))
+	// if marshalling fails there is an offending element (skolem constant); if every element is fine it succeeds
+	bad := fc.freshConst("asn1bad", "Int")
+	elAt := func(ix string) string { return fmt.Sprintf("(select %s (+ (sl_off %s) %s))", row, s, ix) }
+	okAt := func(ix string) string {
+		e := elAt(ix)
+		return fmt.Sprintf("(or (= (itype %s) %s) (and (= (itype %s) %s) (not (= (ipay %s) 0))))", e, boolTag, e, bigTag, e)
+	}
+	fc.addFact("true", sOr(okc, sAnd(sApp("<=", "0", bad), sApp("<", bad, n), sNot(okAt(bad)))))
+	fc.addCand(bad)
+	fc.addCand(sApp("-", bad, "1"))
+	fc.addCand(sApp("-", bad, "2"))
+	_ = el
 	out := fr.newSliceFresh(st, types.Typ[types.Uint8], fc.freshConst("derlen", "Int"), types.NewSlice(types.Typ[types.Uint8]), "der")
 	fc.addFact("true", sEq(fr.bseqOf(st, out), sApp("derseq", codes, n)))
 	errv := fc.freshConst("asn1err", "Int")
